@@ -536,6 +536,15 @@ Post(s) == IF ~HistPost THEN [none |-> TRUE] ELSE
             sf |-> {<<id, s.sf[id].val, s.sf[id].addr, s.sf[id].cs>> : id \in DOMAIN s.sf},
             c1 |-> {<<id, s.c1[id]>> : id \in DOMAIN s.c1},
             c2 |-> {<<id, s.c2[id]>> : id \in DOMAIN s.c2}]
+\* a block whose transactions are all valid but whose miner payout is not reward + fees (validateMinerPayouts), or which
+\* pays it out in two outputs (allowed in blocks without v2 data, forbidden with them)
+BlockDefects == IF "payout" \in Defects THEN {"payout+1", "payout-1", "payout-split"} ELSE {}
+BlockVerdict(d) == IF d = "payout-split" /\ child < AllowH THEN "accept" ELSE "reject"
+EndBad ==
+  /\ ms # NULL /\ ~ms.bad
+  /\ \E d \in BlockDefects : BlockVerdict(d) = "reject"
+        /\ hist' = Append(hist, [op |-> "block", verdict |-> "reject", txs |-> ms.txs, bdefect |-> d])
+  /\ ms' = NULL /\ UNCHANGED <<committed, undo, nrev>>
 End ==
   /\ ms # NULL
   /\ IF ms.bad
@@ -543,7 +552,10 @@ End ==
           /\ hist' = Append(hist, [op |-> "block", verdict |-> "reject", txs |-> ms.txs])
      ELSE LET exp   == Expiring(ms)
               dead  == ms.spends \cup exp
-              extra == (Id(MINER, child, 0, 0, 0) :> [val |-> Reward + ms.fees, addr |-> "A", mat |-> child + MatDelay])
+              split == "payout" \in Defects /\ child < AllowH /\ ms.ntx % 2 = 1      \* a v1 block may pay the miner in several outputs
+              extra == (IF split THEN (Id(MINER, child, 0, 0, 0) :> [val |-> Reward + ms.fees - 1, addr |-> "A", mat |-> child + MatDelay])
+                                      ++ (Id(MINER, child, 0, 0, 1) :> [val |-> 1, addr |-> "A", mat |-> child + MatDelay])
+                        ELSE (Id(MINER, child, 0, 0, 0) :> [val |-> Reward + ms.fees, addr |-> "A", mat |-> child + MatDelay]))
                        ++ (IF Subsidy /\ ms.fnd.p # "V" THEN Id(FOUND, child, 0, 0, 0) :> [val |-> 0, addr |-> ms.fnd.p, mat |-> child + MatDelay] ELSE <<>>)
                        ++ ExpOuts(ms, exp)
               scAll == ms.sc ++ extra
@@ -561,6 +573,7 @@ End ==
              \* (including outputs created and spent inside this block: they enter the accumulator as spent leaves)
              /\ gone' = gone ++ [id \in dead |-> GoneRec(ms, id)]
              /\ hist' = Append(hist, [op |-> "block", verdict |-> "accept", txs |-> ms.txs, exp |-> exp,
+                                      bdefect |-> IF "payout" \in Defects /\ child < AllowH /\ ms.ntx % 2 = 1 THEN "payout-split" ELSE "",
                                       post |-> Post([height |-> child, pool |-> ms.pool, fnd |-> ms.fnd, natt |-> natt + ms.att, sc |-> sc', sf |-> sf', c1 |-> c1', c2 |-> c2'])])
   /\ ms' = NULL /\ UNCHANGED nrev
 
@@ -572,7 +585,7 @@ Revert == /\ ms = NULL /\ undo # <<>> /\ nrev < MaxReverts
                /\ hist' = Append(hist, [op |-> "revert", verdict |-> "done", post |-> Post(u)])
           /\ undo' = Tail(undo) /\ nrev' = nrev + 1 /\ UNCHANGED ms
 
-Next == Begin \/ Txn \/ BadTxn \/ End \/ Revert
+Next == Begin \/ Txn \/ BadTxn \/ End \/ EndBad \/ Revert
 Spec == Init /\ [][Next]_vars
 
 -----------------------------------------------------------------------------
